@@ -20,7 +20,7 @@ EXHAUSTIVE = {'quick': False, 'thorough': False}
 TTL = 15 * Q
 
 
-def history(rng, label, msgs, reuse=False, wrongtype=False, dup=False):
+def history(rng, label, msgs, reuse=False, wrongtype=False, dup=False, jumps=False):
     """msgs: list of dict(log, nseg, ref, reactions[list per segment])"""
     sim = CorrSim(ttl_resp_q=TTL, ttl_deliv_q=100000 * Q)
     cases = [Case(sim.first_line, 'ok', None)]
@@ -60,16 +60,21 @@ def history(rng, label, msgs, reuse=False, wrongtype=False, dup=False):
         early_resp = any(ops[i][0] == 'resp' and any(o[0] == 'put' and o[1] == ops[i][3] for o in ops[i + 1:])
                          for i in range(len(ops)))
         # ---- run -----------------------------------------------------------------------------
+        late = set()
         t = 100
         outcomes = {}               # log -> list of (op index, 'ok' | 'fail')
         answered_at = {}            # (mi, si) -> op index
+        put_time = {}               # (mi, si) -> time stored
+        op_time = []
         for oi, o in enumerate(ops):
-            t += 1
+            t += rng.choice((1, 1, 1, 1, 5, TTL // 2, TTL + 1)) if jumps else 1
+            op_time.append(t)
             if o[0] == 'put':
                 _, mi, si, sq = o
                 m = msgs[mi]
                 sar = (m['ref'], si + 1, m['nseg']) if m['nseg'] > 1 else None
                 ln, out = sim.op_put(t, sim.submit(sq, m['log'], 1000 + m['log'], sar=sar))
+                put_time[(mi, si)] = t
             elif o[0] == 'wrong':
                 ln, out, _ = sim.op_hresp(t, sim.resp('enqresp', o[1], 0))
             else:
@@ -81,7 +86,10 @@ def history(rng, label, msgs, reuse=False, wrongtype=False, dup=False):
                 else:
                     r = sim.resp('submitresp', sq, int(re), '')
                 ln, out, _ = sim.op_hresp(t, r)
-                answered_at.setdefault((mi, si), oi)
+                if ' N ' in out + ' ' or ' T ' in out + ' ':
+                    answered_at.setdefault((mi, si), oi)         # it did reach its request
+                elif (mi, si) not in answered_at:
+                    late.add((mi, si))                            # the request had expired before
             cases.append(Case(ln, out, None))
             collect(out, oi, outcomes)
         # expiry of everything unanswered: two sweeps far in the future
@@ -99,7 +107,7 @@ def history(rng, label, msgs, reuse=False, wrongtype=False, dup=False):
                 fail = 'an outcome carries log_id L%d which no submitted message has' % lg
         for mi, m in enumerate(msgs):
             got = outcomes.get(m['log'], [])
-            bad = any(r != 'accept' for r in m['reactions'])
+            bad = any(r != 'accept' or (mi, si) in late for si, r in enumerate(m['reactions']))
             if fail is not None:
                 break
             if len(got) != 1:
@@ -115,9 +123,9 @@ def history(rng, label, msgs, reuse=False, wrongtype=False, dup=False):
         shapes = tuple(sorted((m['nseg'], tuple(sorted(set('acc' if r == 'accept' else ('sil' if r == 'silence' else
                                                                 ('nack' if r == 'nack' else 'rej'))
                                                                for r in m['reactions'])))) for m in msgs))[:3]
-        sig = (label, shapes, early_resp, reuse, wrongtype, dup, fail is None)
+        sig = (label, shapes, early_resp, reuse, wrongtype, dup, jumps, bool(late), fail is None)
         cases.append(Case(ln, out, sig, fail,
-                          {'op': 'history', 'label': label, 'reuse': reuse, 'wrongtype': wrongtype,
+                          {'op': 'history', 'label': label, 'reuse': reuse, 'wrongtype': wrongtype, 'jumps': jumps,
                            'msgs': [{k: v for k, v in m.items()} for m in msgs],
                            'lines': [c.line for c in cases[1:]]}))
     finally:
@@ -161,6 +169,10 @@ def generate(rng, tier):
     thorough = tier == 'thorough'
     for _ in range(1500 if thorough else 400):
         yield from history(rng, 'mix', rand_msgs(rng, rng.randrange(1, 6)), dup=rng.random() < 0.2)
+    # the clock jumps between operations: requests expire in the middle of the history, inside the
+    # sweep of whichever operation comes next (a response to a sibling segment included)
+    for _ in range(1500 if thorough else 400):
+        yield from history(rng, 'jumps', rand_msgs(rng, rng.randrange(1, 4)), jumps=True)
     # directed: every reaction at every position of 2- and 3-segment messages
     for nseg in (2, 3):
         for pos in range(nseg):
@@ -184,7 +196,7 @@ def replay(inp):
     import random
     msgs = [dict(m) for m in inp['msgs']]
     cases = history(random.Random(1), inp['label'], msgs, reuse=inp.get('reuse', False),
-                    wrongtype=inp.get('wrongtype', False))
+                    wrongtype=inp.get('wrongtype', False), jumps=inp.get('jumps', False))
     last = cases[-1]
     last.line = '\n'.join(c.line for c in cases)
     last.out = '\n'.join(c.out for c in cases)
